@@ -58,6 +58,7 @@ type Task struct {
 	api      int // depth of calls into the code under test (harness bookkeeping)
 	apiName  string
 	selPerm  []int
+	prio     int64 // PCT priority (higher runs first)
 	PanicVal interface{}
 	PanicStk string
 	Daemon   bool // allowed to stay blocked at the end of the run
@@ -74,6 +75,8 @@ type Config struct {
 	SyncPermille  int     `json:"sync_permille"`  // chance that a lock operation yields first (0 = always)
 	MaxSteps      int     `json:"max_steps"`
 	KeepLog       bool    `json:"-"`
+	PCTDepth      int     `json:"pct_depth"`        // > 0: PCT scheduling with this many priority-change points (the tape is ignored)
+	PCTSteps      int     `json:"pct_steps"`        // change points are drawn in [0, PCTSteps)
 	TickPerReadNs int64   `json:"tick_per_read_ns"` // wall/mono advance per clock read
 	BaseUnixMs    int64   `json:"base_unix_ms"`
 }
@@ -150,6 +153,9 @@ type Sim struct {
 	stuck  bool
 	budget bool
 
+	pctChange map[int]bool // steps at which the running task's priority drops below everybody's
+	pctLow    int64
+
 	// OnQuiescent, if set, is called by the controller at every quiescent instant before it
 	// chooses the next task. It must not block.
 	OnQuiescent func(s *Sim)
@@ -176,6 +182,17 @@ func New(cfg Config, wait func()) *Sim {
 	s := &Sim{cfg: cfg, wait: wait, byGoid: map[int64]*Task{}, counts: map[string]int{}, pairs: map[uint64]int{}}
 	s.rng = cfg.Seed*0x9E3779B97F4A7C15 + 0x1234567
 	s.hash = 14695981039346656037
+	if cfg.PCTDepth > 0 {
+		// PCT (Burckhardt et al.): random task priorities, d-1 priority-change points at random steps
+		n := cfg.PCTSteps
+		if n <= 0 {
+			n = 200
+		}
+		s.pctChange = map[int]bool{}
+		for i := 0; i < cfg.PCTDepth; i++ {
+			s.pctChange[int(s.next64()%uint64(n))] = true
+		}
+	}
 	return s
 }
 
@@ -326,6 +343,9 @@ func goid() int64 {
 
 func (s *Sim) spawn(name string, f func()) *Task {
 	t := &Task{Idx: len(s.tasks), Name: name, sim: s, wake: make(chan struct{}), state: Parked}
+	if s.pctChange != nil {
+		t.prio = int64(s.next64()>>2) + 1000
+	}
 	s.mu.Lock()
 	s.tasks = append(s.tasks, t)
 	s.mu.Unlock()
@@ -640,8 +660,20 @@ func (s *Sim) Run(main func()) *Result {
 				}
 			}
 		}
-		c := s.choice(len(runnable), true)
-		t := runnable[c]
+		var t *Task
+		if s.pctChange != nil {
+			for _, r := range runnable {
+				if t == nil || r.prio > t.prio {
+					t = r
+				}
+			}
+			if s.pctChange[s.steps] {
+				s.pctLow--
+				t.prio = s.pctLow // from now on everybody else goes first
+			}
+		} else {
+			t = runnable[s.choice(len(runnable), true)]
+		}
 		s.steps++
 		if s.last != nil && t != s.last {
 			s.switches++
